@@ -365,3 +365,5 @@ SUBS = [
     Sub("explicit", lambda tier: explicit_cases(tier), check_explicit, quick=900, thorough=5000),
     Sub("method", lambda tier: method_cases(tier), check_method, quick=400, thorough=2000),
 ]
+
+RULE += ' Also: one (lo, hi) range shared by all axes (edges asserted), per-axis argument lists whose length differs from the number of axes (refused), square data blocks, signed weights.'
